@@ -9,6 +9,8 @@ package c11
 import (
 	"crypto"
 	"encoding"
+	"github.com/cloudflare/circl/ecc/bls12381"
+	"github.com/cloudflare/circl/ecc/goldilocks"
 	"reflect"
 	"testing"
 
@@ -501,6 +503,31 @@ func TestVerifReuse(t *testing.T) {
 		}
 		if i%4 == 0 {
 			k12Independence(r)
+		}
+		// ---- variable-length scalar decoders: a receiver that held a full-width
+		// value is loaded from an input of every length, and must equal a fresh
+		// receiver loaded from the same input (short inputs leave no stale words)
+		for _, n := range []int{0, 1, 7, 8, 9, 31, 32, 33, 47, 48, 49, 55, 56, 57, 64, 113, 114, 120, r.Intn(121)} {
+			in := r.Bytes(n)
+			var used, fresh goldilocks.Scalar
+			used.FromBytes(r.Bytes(56))
+			used.FromBytes(in)
+			fresh.FromBytes(in)
+			lib.Count("reuse:scalar-receiver-prefilled")
+			if used != fresh {
+				reuseViol("goldilocks.Scalar.FromBytes", "decode-into-used-differs", "input", in, "used_receiver", used[:], "fresh_receiver", fresh[:])
+			}
+			if n <= 64 {
+				var bu, bf bls12381.Scalar
+				bu.SetBytes(r.Bytes(32))
+				bu.SetBytes(in)
+				bf.SetBytes(in)
+				ub, _ := bu.MarshalBinary()
+				fb, _ := bf.MarshalBinary()
+				if !lib.Eq(ub, fb) || bu.IsEqual(&bf) != 1 {
+					reuseViol("bls12381.Scalar.SetBytes", "decode-into-used-differs", "input", in, "used_receiver", ub, "fresh_receiver", fb)
+				}
+			}
 		}
 		// ---- polynomial / secret sharing: constructors copy their arguments
 		for _, g := range []group.Group{group.P256, group.Ristretto255} {
